@@ -5,6 +5,7 @@ import (
 	"errors"
 	"fmt"
 	"io"
+	"math/big"
 	"net"
 	"net/url"
 	"strings"
@@ -20,6 +21,7 @@ import (
 	"google.golang.org/grpc"
 	"google.golang.org/grpc/codes"
 	"google.golang.org/grpc/credentials/insecure"
+	"google.golang.org/grpc/metadata"
 	"google.golang.org/grpc/status"
 	"google.golang.org/protobuf/protoadapt"
 	"google.golang.org/protobuf/types/known/durationpb"
@@ -88,6 +90,10 @@ func (p pbPlan) err(where string) (err error) {
 type pbStream struct {
 	got      []*backendpb.DeviceBillingStat
 	accepted bool
+	// auth is the authorization metadata the stream was opened with.
+	auth []string
+	// plan is how the backend was told to treat the stream.
+	plan pbPlan
 }
 
 type pbServer struct {
@@ -103,7 +109,10 @@ func (s *pbServer) SaveDevicesBillingStat(
 ) (err error) {
 	s.mu.Lock()
 	plan := s.plan
-	st := &pbStream{}
+	st := &pbStream{plan: plan}
+	if md, ok := metadata.FromIncomingContext(srv.Context()); ok {
+		st.auth = md.Get("authorization")
+	}
 	s.streams = append(s.streams, st)
 	s.mu.Unlock()
 
@@ -177,6 +186,13 @@ func showWire(msg *backendpb.DeviceBillingStat) string {
 // leaves them), times before 1970 and with every nanosecond digit, extreme
 // ASNs and protocols.  Oracle: the acknowledged message carries the count
 // modulo 2^32 and exactly the record's time, country, ASN and protocol.
+// farTimes are (seconds, nanoseconds) since 1970 of times outside the range of
+// an int64 of nanoseconds.
+var farTimes = [][2]int64{
+	{-62135596800, 0}, {-62135596800, 1}, {253402300799, 999_999_999}, {1 << 34, 5}, {-(1 << 35), 999_999_999},
+	{9223372037, 0}, {-9223372037, 0}, {9223372036, 854_775_808}, {-9223372037, 145_224_191},
+}
+
 func wireCampaign(x *runner, bs *backendpb.BillStat, srv *pbServer) {
 	r := x.r
 	rng := x.o.Rand("wire")
@@ -196,6 +212,9 @@ func wireCampaign(x *runner, bs *backendpb.BillStat, srv *pbServer) {
 		type crafted struct {
 			n uint64
 			m meta
+			// ts is the time in nanoseconds since 1970 as a decimal number: it
+			// does not fit into an int64 for the far times.
+			ts string
 		}
 		in := map[int]crafted{}
 		for d := 0; d < k; d++ {
@@ -211,14 +230,29 @@ func wireCampaign(x *runner, bs *backendpb.BillStat, srv *pbServer) {
 				t = rng.Int64N(4e18) - 2e18
 			}
 			m := meta{T: t, C: rng.IntN(len(countries)), A: asns[rng.IntN(len(asns))], P: uint8(rng.IntN(256))}
-			in[d] = crafted{n, m}
-			// int32(n) is what n increments of an int32 leave behind.
-			recs[devID(d)] = &billstat.Record{Time: time.Unix(0, t), Country: countries[m.C], ASN: geoip.ASN(m.A),
-				Queries: int32(n), Proto: agd.Protocol(m.P)}
 			sec, nano := t/1_000_000_000, t%1_000_000_000
 			if nano < 0 {
 				sec, nano = sec-1, nano+1_000_000_000
 			}
+			tm := time.Unix(0, t)
+			if rng.IntN(4) == 0 {
+				// Times a time.Time can hold but an int64 of nanoseconds
+				// cannot (more than 292 years from 1970): the zero Time, the
+				// last second of the year 9999, and others.
+				far := farTimes[rng.IntN(len(farTimes))]
+				sec, nano = far[0], far[1]
+				tm = time.Unix(sec, nano)
+				if sec == -62135596800 && nano == 0 {
+					tm = time.Time{}
+				}
+				m.T = 0
+				r.Count("wire.far_time")
+			}
+			ts := new(big.Int).Add(new(big.Int).Mul(big.NewInt(sec), big.NewInt(1_000_000_000)), big.NewInt(nano)).String()
+			in[d] = crafted{n, m, ts}
+			// int32(n) is what n increments of an int32 leave behind.
+			recs[devID(d)] = &billstat.Record{Time: tm, Country: countries[m.C], ASN: geoip.ASN(m.A),
+				Queries: int32(n), Proto: agd.Protocol(m.P)}
 			want[d] = fmt.Sprintf("w %d %d %d %d %d %d %d", d, sec, nano, m.C, m.P, m.A, n%(1<<32))
 		}
 		srv.mu.Lock()
@@ -249,7 +283,7 @@ func wireCampaign(x *runner, bs *backendpb.BillStat, srv *pbServer) {
 				r.Violate("wire-differs-from-record", fmt.Sprintf("wire: record %v of device %d went out as %q, want %q", in[d], d, got, want[d]), replay)
 			}
 			c := in[d]
-			lines = append(lines, fmt.Sprintf("wire %d %d %d %d %d %d", d, c.n, c.m.T, c.m.C, c.m.A, c.m.P))
+			lines = append(lines, fmt.Sprintf("wire %d %d %s %d %d %d", d, c.n, c.ts, c.m.C, c.m.A, c.m.P))
 			real = append(real, got)
 		}
 		x.m.ResetLog()
@@ -730,6 +764,15 @@ func pbCampaign(x *runner) {
 			// message: CloseAndRecv then returns io.EOF, which Upload takes as
 			// an acknowledgement.
 			plan.noResp = plan.failAfter < 0 && rng.IntN(5) == 0
+			// The context may be done before the real uploader is entered (the
+			// shutdown refresh after the shutdown timeout has run out, a debug
+			// request the client has dropped).  The backend would accept; an
+			// uploader that returns nil without having delivered loses the batch.
+			ctxDone := 0
+			if !final && !plan.stall && !plan.dead && rng.IntN(7) == 0 {
+				ctxDone = 1 + rng.IntN(2)
+				plan = pbPlan{failAfter: -1}
+			}
 			tee.real = bs
 			if plan.dead {
 				tee.real = bsDead
@@ -740,6 +783,15 @@ func pbCampaign(x *runner) {
 				// fails whatever the timing.
 				stalls--
 				rctx, rcancel = context.WithTimeout(ctx, 30*time.Millisecond)
+			}
+			switch ctxDone {
+			case 1:
+				rctx, rcancel = context.WithCancel(ctx)
+				rcancel()
+				r.Count("grpc.ctx_cancelled_at_entry")
+			case 2:
+				rctx, rcancel = context.WithDeadline(ctx, time.Unix(1, 0))
+				r.Count("grpc.ctx_expired_at_entry")
 			}
 			srv.mu.Lock()
 			srv.plan = plan
@@ -757,7 +809,7 @@ func pbCampaign(x *runner) {
 			srv.mu.Lock()
 			streams := srv.streams
 			srv.mu.Unlock()
-			log = append(log, fmt.Sprintf("refresh(backend=%s)->err=%v", plan, rerr != nil))
+			log = append(log, fmt.Sprintf("refresh(backend=%s%s)->err=%v", plan, []string{"", ",ctx-cancelled", ",ctx-expired"}[ctxDone], rerr != nil))
 			r.Count("grpc.backend." + strings.SplitN(plan.String(), "-after-", 2)[0])
 			lines, real = append(lines, "begin"), append(real, showRecs("batch", tee.snap))
 			accepted := map[int]rec{}
